@@ -145,7 +145,10 @@ pub fn exec_in_thread(
     let cfg = cfg.clone();
     let h = std::thread::Builder::new()
         .stack_size(32 << 20)
-        .spawn(move || f(&p, &cfg))
+        .spawn(move || {
+            crate::world::IS_RUN_THREAD.with(|c| c.set(true));
+            f(&p, &cfg)
+        })
         .map_err(|e| format!("spawn: {e}"))?;
     h.join().map_err(|_| {
         let pi = crate::take_last_panic();
